@@ -51,7 +51,7 @@ def run(ctx, rep):
                         rep.ok("P3", "constructor %s" % pth)
                         continue
                     okk = False
-                    if adt == "ast::Range" and pth == "validation::check_method_args":
+                    if adt == "ast::Range" and (pth == "validation::check_method_args" or pth.startswith("validation::check_method_args::{closure")):
                         okk = True  # checked by the C07 table: Range{start: p.clone(), end: p.clone()} with one p
                     rep.check(okk, "P3", "C04|P3|%s|%s" % (pth, adt), cfg.where(f, s),
                               "%s is built outside its constructor in %s: only the empty-range idiom {start: p.clone(), end: p.clone()} of check_method_args is known to keep start <= end" % (adt, pth))
@@ -61,7 +61,7 @@ def run(ctx, rep):
     t = type_node(facts, "arg.arg_type", enum_val(facts, TYPEKIND, "Array"))
     arg = struct_val(facts, "ast::Arg", "arg", {"arg_type": t, "direction": enum_val(facts, DIRECTION, "Unspecified")})
     meth = struct_val(facts, "ast::Method", "method", {"oneway": Const("bool", False)})
-    ps = Machine(facts, on_next=lambda il: Ref(Cell(arg))).run("validation::check_method_args", [Ref(Cell(meth)), sym_ref("diagnostics", mut=True)])
+    ps = Machine(facts, on_next=lambda il: Ref(Cell(arg)), loop_once=True).run("validation::check_method_args", [Ref(Cell(meth)), sym_ref("diagnostics", mut=True)])
     rg = [diag_of(e)["range"] for p in ps for e in p.pushes("diagnostics")]
     rep.check(rg == [("empty_at", "arg.arg_type.symbol_range.start")], "P3", "C04|P3|empty-range-idiom", cfg.where(facts.fn("validation::check_method_args")),
               "the missing-direction range must be the empty range {p, p} at the start of the argument's type; extracted %r" % (rg,), sample={"range": repr(rg)})
@@ -193,7 +193,7 @@ def g3(ctx, rep):
             for dn, dv in dirs:
                 arg = struct_val(facts, "ast::Arg", "arg", {"arg_type": type_node(facts, "arg.arg_type", kind), "direction": dv})
                 m2 = struct_val(facts, "ast::Method", "method", {"oneway": Const("bool", ow)})
-                take(Machine(facts, on_next=lambda il, arg=arg: Ref(Cell(arg))).run("validation::check_method_args", [Ref(Cell(m2)), sym_ref("diagnostics", mut=True)]))
+                take(Machine(facts, on_next=lambda il, arg=arg: Ref(Cell(arg)), loop_once=True).run("validation::check_method_args", [Ref(Cell(m2)), sym_ref("diagnostics", mut=True)]))
     # oneway set-up
     for mow in (False, True):
         meth = struct_val(facts, "ast::Method", "method", {"oneway": Const("bool", mow)})
